@@ -15,7 +15,7 @@ import (
 func init() {
 	Registry["C10"] = C10
 	Metas["C10"] = Meta{
-		Explanation: "Decides the structural clauses of C10: (H1) every found-path of the lock-free readers and of the compute core (hit under lock, call of the user function with loaded=true) is dominated by the true edge of a Go == between the stored key and the lookup key - a hash-byte or top-hash match alone is never a hit, so colliding keys cannot alias; (H2) every call of the runtime type-hash primitive receives a pair (type descriptor of X, pointer to a variable of static type X) for one and the same X: descriptors are traced to the type word of an interface built from a value of static non-interface type X or to the data word of a reflect.Type describing X, pointers to the address of a variable of type X; the data word of an interface header is NOT accepted as a pointer to the dynamic value (for pointer-shaped dynamic types it is the value itself) - this is what makes interface-kinded, pointer, nil and padded keys hash like == compares; (H3) the byte-wise memory hash is used only for strings, with the data pointer and length of one and the same string - never for generic keys (+0/-0, padding, nested strings would break ==), and a hash function for generic keys reads the key's raw bits (an unsafe integer reinterpretation) only when it is handed out under reflect.Kind tests for kinds whose == is bit equality (booleans, integers, pointers, channels); (H4) the hash that selects the root bucket and the bucket-local byte is the map's hasher applied to the lookup key with the attempt's table seed, and the resize copy re-hashes the stored key with the map's own hasher; (H5) no explicit panic is reachable from the public API (each is in a branch that is dead under every constant mode, or guarded by a flag that is never set). NOT decided: correctness of the runtime's typehash itself; NaN keys (excluded by the property).",
+		Explanation: "Decides the structural clauses of C10: (H1) every found-path of the lock-free readers and of the compute core (hit under lock, call of the user function with loaded=true) is dominated by the true edge of a Go == between the stored key and the lookup key - a hash-byte or top-hash match alone is never a hit, so colliding keys cannot alias; (H2) every call of the runtime type-hash primitive receives a pair (type descriptor of X, pointer to a variable of static type X) for one and the same X: descriptors are traced to the type word of an interface built from a value of static non-interface type X or to the data word of a reflect.Type describing X, pointers to the address of a variable of type X; the data word of an interface header is NOT accepted as a pointer to the dynamic value (for pointer-shaped dynamic types it is the value itself) - this is what makes interface-kinded, pointer, nil and padded keys hash like == compares; (H3) the byte-wise memory hash is used only for strings, with the data pointer and length of one and the same string - never for generic keys (+0/-0, padding, nested strings would break ==), and a hash function for generic keys reads the key's raw bits (an unsafe integer reinterpretation) only when it is handed out under reflect.Kind tests for kinds whose == is bit equality (booleans, integers, pointers, channels); (H4) the hash that selects the root bucket and the bucket-local byte is the map's hasher applied to the lookup key with the attempt's table seed, and the resize copy re-hashes the stored key with the map's own hasher; (H5) no explicit panic is reachable from the public API (each is in a branch that is dead under every constant mode, or guarded by a flag that is never set); (H6, H7) slot writes pair a bucket with its own index and published entries are never rewritten (C03/C04 P14, P2); (H8) an entry stays reachable under its key: a bucket's packed hash bits are rewritten from that bucket's own word and the lock-free lookup reports a key absent only at the end of the chain (C03/C04 P10, P11). NOT decided: correctness of the runtime's typehash itself; NaN keys (excluded by the property).",
 		Rule:        "one obligation per (rule, call site | exit | panic site); non-trivial = decided from value provenance traces, dominance or explored core paths",
 		Assumptions: []string{"runtime.typehash(t, p, seed) hashes the value of type t stored at p consistently with == (as the builtin map does)"},
 	}
@@ -40,6 +40,18 @@ func C10(r *Run) *core.Report {
 		n6 += borrow(rep, tmp, "C10.H6", "C03.P14", "C04.P14")
 	}
 	rep.MinCount("C10.H6", "slot pairing obligations", n6, 4)
+	// H8: an entry stays reachable under its key: the hash bits kept in a bucket's packed word are rewritten from that
+	// bucket's own word (P10: inserting into one bucket must not replace the bits of the other keys of another), and the
+	// lock-free lookup gives up only at the end of the chain (P11: an emptied bucket in the middle hides nothing)
+	n8 := 0
+	for i, mm := range r.M.Maps {
+		tmp := core.NewReport("C10")
+		pr := []string{"C03", "C04"}[i]
+		p10RMW(r, tmp, pr, mm)
+		p11Absence(r, tmp, pr+".P11", mm)
+		n8 += borrow(rep, tmp, "C10.H8", pr+".P10", pr+".P11")
+	}
+	rep.MinCount("C10.H8", "premise obligations (packed-word rewrites, absence only at the end of the chain)", n8, 6)
 	// H7: the key a reader compared stays the key of the entry it returns: published entries are never written again and
 	// slot pointers are per-call allocations (restated from C14.A3/A4 through C03/C04.P2)
 	n7 := 0
